@@ -446,3 +446,254 @@ Proof.
       destruct Hax as [E|[E Hle]], Hbx as [E'|[E' Hle']]; rewrite E, E';
         try apply Qle_bool_iff in E; try apply Qle_bool_iff in E'; split; lra.
 Qed.
+
+(* ================================================================== the bilateral filter *)
+
+(* the spatial kernel array of the code, indexed from the window corner, as a function of the
+   displacement from the pixel: index = displacement + lo *)
+Definition sp_of (sk : Z -> Z -> Q) (lo : Z) : Z -> Z -> Q := fun dr dc => sk (dr + lo) (dc + lo).
+
+Lemma bil_terms_as_win_terms : forall sk rk (data : map2) lo hi r c cv,
+  bil_terms sk rk data (lo + hi + 1) (r - lo) (c - lo) cv
+  = win_terms (sp_of sk lo) rk data lo hi r c cv.
+Proof.
+  intros. unfold bil_terms, win_terms, win_px, span, zrange, sp_of.
+  generalize (seq 0 (Z.to_nat (lo + hi + 1))) at 2 4 as L1.
+  generalize (seq 0 (Z.to_nat (lo + hi + 1))) as L2. intros L2 L1.
+  induction L1 as [|k L1 IH]; cbn [map flat_map]; [reflexivity|].
+  rewrite flat_map_app. f_equal; [|exact IH]. clear IH.
+  induction L2 as [|k2 L2 IH2]; cbn [map flat_map]; [reflexivity|].
+  f_equal; [|exact IH2]. cbn [fst snd].
+  replace (r + (- lo + Z.of_nat k)) with (r - lo + Z.of_nat k) by lia.
+  replace (c + (- lo + Z.of_nat k2)) with (c - lo + Z.of_nat k2) by lia.
+  replace (r - lo + Z.of_nat k - r + lo) with (Z.of_nat k) by lia.
+  replace (c - lo + Z.of_nat k2 - c + lo) with (Z.of_nat k2) by lia.
+  reflexivity.
+Qed.
+
+Lemma In_win_terms : forall sp rg (val : dmap) lo hi r c cv t,
+  In t (win_terms sp rg val lo hi r c cv) <->
+  exists r' c' v, (r - lo <= r' <= r + hi /\ c - lo <= c' <= c + hi) /\ val r' c' = Some v /\
+                  t = ((sp (r' - r)%Z (c' - c)%Z * rg (v - cv))%Q, v).
+Proof.
+  intros. unfold win_terms. rewrite in_flat_map. split.
+  - intros ([r' c'] & Hin & H). apply In_win_px in Hin. cbn [fst snd] in H.
+    destruct (val r' c') as [v|] eqn:Ev; [|destruct H]. destruct H as [<-|[]].
+    exists r', c', v. auto.
+  - intros (r' & c' & v & Hr & Hv & ->). exists (r', c'). split; [apply In_win_px; exact Hr|].
+    cbn [fst snd]. rewrite Hv. left. reflexivity.
+Qed.
+
+Lemma flat_map_ext_in' : forall (A C : Type) (f g : A -> list C) l,
+  (forall x, In x l -> f x = g x) -> flat_map f l = flat_map g l.
+Proof.
+  induction l as [|x l IH]; intros H; cbn [flat_map]; [reflexivity|].
+  rewrite (H x (or_introl eq_refl)), IH; [reflexivity|]. intros; apply H; right; assumption.
+Qed.
+
+Lemma win_terms_ext : forall sp rg (val val' : dmap) lo hi r c cv,
+  (forall r' c', r - lo <= r' <= r + hi -> c - lo <= c' <= c + hi -> val r' c' = val' r' c') ->
+  win_terms sp rg val lo hi r c cv = win_terms sp rg val' lo hi r c cv.
+Proof.
+  intros. unfold win_terms. apply flat_map_ext_in'. intros [r' c'] Hin. apply In_win_px in Hin.
+  cbn [fst snd]. rewrite H by lia. reflexivity.
+Qed.
+
+(* the values of the (weight, value) pairs are the valid values of the window *)
+Lemma win_terms_values : forall sp rg (val : dmap) lo hi r c cv,
+  map snd (win_terms sp rg val lo hi r c cv) = win_vals val lo hi r c.
+Proof.
+  intros. unfold win_terms, win_vals, somes. generalize (win_px lo hi r c) as L.
+  induction L as [|p L IH]; cbn [flat_map map]; [reflexivity|].
+  rewrite map_app, IH. f_equal. destruct (val (fst p) (snd p)); reflexivity.
+Qed.
+
+Lemma win_width_le : forall ny nx s, win_width ny nx s <= ny /\ win_width ny nx s <= nx.
+Proof. intros. unfold win_width. lia. Qed.
+
+(* int(3 * sigma_space + 1) >= 1 for a non-negative sigma_space: the window is never empty *)
+Lemma win_width_pos : forall ny nx s, 1 <= ny -> 1 <= nx -> (0 <= s)%Q -> 1 <= win_width ny nx s.
+Proof.
+  intros ny nx s Hy Hx Hs. unfold win_width.
+  assert (H : Qfloor 1 <= Qfloor (3 * s + 1)) by (apply Qfloor_resp_le; lra).
+  change (Qfloor 1) with 1 in H. lia.
+Qed.
+
+(* what BilateralFilter.filter_bilateral computes at pixel (r, c), for EVERY block size B >= 1 *)
+Lemma filter_bilateral_at : forall B ny nx sigma sk rk (data : map2) r c, 1 <= B ->
+  let win := win_width ny nx sigma in
+  let lo := win / 2 in
+  let hi := win - 1 - lo in
+  1 <= win ->
+  filter_bilateral B ny nx sigma sk rk data r c =
+  match data r c with
+  | None => None
+  | Some cv => if fits_b lo hi ny nx r c
+               then Some (wmean (win_terms (sp_of sk lo) rk data lo hi r c cv))
+               else Some cv
+  end.
+Proof.
+  intros B ny nx sigma sk rk data r c HB win lo hi Hwin. unfold filter_bilateral. fold win. fold lo.
+  destruct (win_width_le ny nx sigma) as [Hy Hx]. fold win in Hy, Hx.
+  rewrite loop2_spec by lia.
+  destruct (data r c) as [cv|] eqn:Ed; cbn [is_none]; [|reflexivity].
+  unfold fits_b.
+  replace (r <? lo + (ny - win + 1)) with (r + hi <? ny)
+    by (unfold hi; destruct (Z.ltb_spec (r + (win - 1 - lo)) ny), (Z.ltb_spec r (lo + (ny - win + 1))); lia).
+  replace (c <? lo + (nx - win + 1)) with (c + hi <? nx)
+    by (unfold hi; destruct (Z.ltb_spec (c + (win - 1 - lo)) nx), (Z.ltb_spec c (lo + (nx - win + 1))); lia).
+  destruct ((lo <=? r) && (r + hi <? ny) && (lo <=? c) && (c + hi <? nx)); [|reflexivity].
+  unfold bilateral_at. replace (r - lo + lo) with r by lia. replace (c - lo + lo) with c by lia.
+  rewrite Ed. replace win with (lo + hi + 1) by (unfold hi; lia).
+  rewrite bil_terms_as_win_terms. reflexivity.
+Qed.
+
+(* the weights of a window sum to a positive number: none is negative, the pixel's own is positive *)
+Lemma win_terms_weight_pos : forall sp rg (val : dmap) lo hi r c cv, 0 <= lo -> 0 <= hi ->
+  kernel_ok sp rg lo hi -> val r c = Some cv ->
+  (0 < sumq (map fst (win_terms sp rg val lo hi r c cv)))%Q.
+Proof.
+  intros sp rg val lo hi r c cv Hlo Hhi (Hsp & Hrg & Hsp0 & Hrg0) Hv.
+  apply (sumq_pos _ (sp (r - r)%Z (c - c)%Z * rg (cv - cv))%Q).
+  - intros y Hy. apply in_map_iff in Hy. destruct Hy as (t & <- & Ht).
+    apply In_win_terms in Ht. destruct Ht as (r' & c' & v & Hr & _ & ->). cbn [fst].
+    apply Qmult_le_0_compat; [apply Hsp; lia | apply Hrg].
+  - apply in_map_iff. exists ((sp (r - r)%Z (c - c)%Z * rg (cv - cv))%Q, cv). split; [reflexivity|].
+    apply In_win_terms. exists r, c, cv. split; [lia|]. split; [exact Hv | reflexivity].
+  - rewrite !Z.sub_diag. apply Qmult_lt_0_compat; [exact Hsp0|]. apply Hrg0. ring.
+Qed.
+
+Lemma kernel_pos_ok : forall sp rg lo hi, 0 <= lo -> 0 <= hi -> kernel_pos sp rg lo hi -> kernel_ok sp rg lo hi.
+Proof.
+  intros sp rg lo hi Hlo Hhi [Hsp Hrg]. repeat split.
+  - intros. apply Qlt_le_weak, Hsp; assumption.
+  - intros. apply Qlt_le_weak, Hrg.
+  - apply Hsp; lia.
+  - intros. apply Hrg.
+Qed.
+
+Theorem bilateral_eq_spec : forall inv B ny nx sigma sk rk disp mask, 1 <= B ->
+  let win := win_width ny nx sigma in
+  let lo := win / 2 in
+  let hi := win - 1 - lo in
+  1 <= win -> kernel_ok (sp_of sk lo) rk lo hi ->
+  let out := bilateral_filter_disparity inv B ny nx sigma sk rk disp mask in
+  bilateral_step_spec inv lo hi ny nx (sp_of sk lo) rk disp mask (fst out) (snd out).
+Proof.
+  intros inv B ny nx sigma sk rk disp mask HB win lo hi Hwin Hk. cbn zeta.
+  unfold bilateral_filter_disparity. cbn [fst snd].
+  set (md := masked_data inv disp mask).
+  assert (Hmd : forall r c, md r c = valid_disp inv disp mask r c) by (intros; apply masked_data_valid_disp).
+  assert (Hlo : 0 <= lo) by (unfold lo; apply Z.div_pos; lia).
+  assert (Hhi : 0 <= hi) by (unfold hi, lo; pose proof (Z.mul_div_le win 2); pose proof (Z.mul_succ_div_gt win 2); lia).
+  pose proof (fun r c => filter_bilateral_at B ny nx sigma sk rk md r c HB Hwin) as Hat.
+  fold win lo hi in Hat.
+  unfold bilateral_step_spec. split; [reflexivity|]. split; [|split].
+  - intros r c Hnone. rewrite Hmd, Hnone. reflexivity.
+  - intros r c Hnf. rewrite Hat. apply fits_b_false in Hnf. rewrite Hnf.
+    rewrite Hmd. unfold valid_disp. destruct (Z.eq_dec _ 0); [|reflexivity].
+    destruct (disp r c); reflexivity.
+  - intros r c Hf cv Hv. rewrite <- Hmd in Hv. rewrite Hat, Hv. cbn [is_none].
+    apply fits_b_iff in Hf. rewrite Hf. eexists. split; [reflexivity|].
+    rewrite <- (win_terms_ext _ _ md (valid_disp inv disp mask)) by (intros; apply Hmd).
+    apply wmean_is_wmean. apply win_terms_weight_pos; assumption.
+Qed.
+
+(* hence (convexity): between the smallest and the largest valid value of the window *)
+Theorem bilateral_between_min_max : forall inv B ny nx sigma sk rk disp mask r c cv, 1 <= B ->
+  let win := win_width ny nx sigma in
+  let lo := win / 2 in
+  let hi := win - 1 - lo in
+  1 <= win -> kernel_ok (sp_of sk lo) rk lo hi ->
+  fits lo hi ny nx r c -> valid_disp inv disp mask r c = Some cv ->
+  exists m, fst (bilateral_filter_disparity inv B ny nx sigma sk rk disp mask) r c = Some m /\
+            between_min_max m (win_vals (valid_disp inv disp mask) lo hi r c).
+Proof.
+  intros inv B ny nx sigma sk rk disp mask r c cv HB win lo hi Hwin Hk Hf Hv.
+  destruct (bilateral_eq_spec inv B ny nx sigma sk rk disp mask HB Hwin Hk) as (_ & _ & _ & H).
+  fold win lo hi in H. destruct (H r c Hf cv Hv) as (m & Hm & Hw). exists m. split; [exact Hm|].
+  set (val := valid_disp inv disp mask) in *.
+  assert (Hlo : 0 <= lo) by (unfold lo; apply Z.div_pos; lia).
+  assert (Hhi : 0 <= hi) by (unfold hi, lo; pose proof (Z.mul_div_le win 2); pose proof (Z.mul_succ_div_gt win 2); lia).
+  assert (Hne : win_vals val lo hi r c <> []).
+  { intro E. assert (Hin : In cv (win_vals val lo hi r c)).
+    { apply In_somes, in_map_iff. exists (r, c). split; [exact Hv | apply In_win_px; lia]. }
+    rewrite E in Hin. exact Hin. }
+  destruct (list_min_max _ Hne) as (a & b & Ha & Hb & Hall).
+  exists a, b. split; [exact Ha|]. split; [exact Hb|]. split; [exact Hall|].
+  apply (wmean_bounds m _ a b Hw). intros t Ht. split.
+  - apply In_win_terms in Ht. destruct Ht as (r' & c' & v & Hr & _ & ->). cbn [fst].
+    destruct Hk as (Hsp & Hrg & _). apply Qmult_le_0_compat; [apply Hsp; lia | apply Hrg].
+  - apply Hall. rewrite <- (win_terms_values (sp_of sk lo) rk val lo hi r c cv).
+    apply in_map. exact Ht.
+Qed.
+
+Theorem bilateral_block_independent : forall inv B B' ny nx sigma sk rk disp mask r c, 1 <= B -> 1 <= B' ->
+  1 <= win_width ny nx sigma ->
+  fst (bilateral_filter_disparity inv B ny nx sigma sk rk disp mask) r c
+  = fst (bilateral_filter_disparity inv B' ny nx sigma sk rk disp mask) r c.
+Proof.
+  intros. unfold bilateral_filter_disparity. cbn [fst]. rewrite !filter_bilateral_at by assumption. reflexivity.
+Qed.
+
+Theorem bilateral_reads_image_only : forall inv B ny nx sigma sk rk disp disp' mask mask', 1 <= B ->
+  1 <= win_width ny nx sigma ->
+  (forall r c, 0 <= r < ny -> 0 <= c < nx -> disp r c = disp' r c /\ mask r c = mask' r c) ->
+  forall r c, 0 <= r < ny -> 0 <= c < nx ->
+  fst (bilateral_filter_disparity inv B ny nx sigma sk rk disp mask) r c
+  = fst (bilateral_filter_disparity inv B ny nx sigma sk rk disp' mask') r c.
+Proof.
+  intros inv B ny nx sigma sk rk disp disp' mask mask' HB Hwin Heq r c Hr Hc.
+  unfold bilateral_filter_disparity. cbn [fst].
+  assert (Hmd : forall r c, 0 <= r < ny -> 0 <= c < nx ->
+                 masked_data inv disp mask r c = masked_data inv disp' mask' r c).
+  { intros r0 c0 Hr0 Hc0. unfold masked_data. destruct (Heq r0 c0 Hr0 Hc0) as [-> ->]. reflexivity. }
+  rewrite (Hmd r c Hr Hc). destruct (Heq r c Hr Hc) as [-> _].
+  rewrite !filter_bilateral_at by assumption. rewrite (Hmd r c Hr Hc).
+  destruct (masked_data inv disp' mask' r c); [|reflexivity].
+  set (win := win_width ny nx sigma) in *.
+  destruct (fits_b (win / 2) (win - 1 - win / 2) ny nx r c) eqn:Ef; [|reflexivity].
+  apply fits_b_iff in Ef. unfold fits in Ef.
+  rewrite (win_terms_ext _ _ (masked_data inv disp mask) (masked_data inv disp' mask')); [reflexivity|].
+  intros. apply Hmd; lia.
+Qed.
+
+(* ================================================================== median_for_intervals *)
+
+Lemma lor_bit11 : forall m, only_bit11_raised m (Z.lor m (2 ^ 11)).
+Proof.
+  intro m. split.
+  - intros k Hk. rewrite Z.lor_spec.
+    destruct (Z.ltb_spec k 0) as [Hneg|Hpos].
+    + rewrite !Z.testbit_neg_r by assumption. reflexivity.
+    + rewrite (Z.pow2_bits_eqb 11 k) by lia.
+      destruct (Z.eqb_spec 11 k); [lia|]. apply orb_false_r.
+  - intros H. rewrite Z.lor_spec, H. reflexivity.
+Qed.
+
+Lemma only_bit11_refl : forall m, only_bit11_raised m m.
+Proof. intro m. split; auto. Qed.
+
+(* without regularisation: the disparity map and the mask are returned as they are, each bound
+   band is the median filter of that band *)
+Theorem mfi_plain : forall bit11 B w ny nx disp binf bsup mask,
+  let o := mfi_filter_disparity bit11 B w ny nx None disp binf bsup mask in
+  f_disp o = disp /\ f_mask o = mask /\
+  f_inf o = median_filter B w ny nx binf /\ f_sup o = median_filter B w ny nx bsup.
+Proof. intros. cbn. auto. Qed.
+
+(* with regularisation (an arbitrary oracle for interval_regularization): the disparity map is
+   returned as it is, the oracle receives the median-filtered bands, only bit 11 of the mask
+   may change and it is never cleared *)
+Theorem mfi_regularized : forall B w ny nx oracle disp binf bsup mask,
+  let o := mfi_filter_disparity (2 ^ 11) B w ny nx (Some oracle) disp binf bsup mask in
+  let res := oracle (median_filter B w ny nx binf) (median_filter B w ny nx bsup) in
+  f_disp o = disp /\ f_inf o = fst (fst res) /\ f_sup o = snd (fst res) /\
+  forall r c, only_bit11_raised (mask r c) (f_mask o r c) /\
+              (f_mask o r c = if snd res r c then Z.lor (mask r c) (2 ^ 11) else mask r c).
+Proof.
+  intros. unfold o, res, mfi_filter_disparity.
+  destruct (oracle (median_filter B w ny nx binf) (median_filter B w ny nx bsup)) as [[i2 s2] rm].
+  cbn [f_disp f_inf f_sup f_mask fst snd]. repeat split; try reflexivity;
+    destruct (rm r c); try apply lor_bit11; try apply only_bit11_refl; auto.
+Qed.
